@@ -10,7 +10,10 @@
         p = position-coherent, r = record-coherent (1/0)
    TOPO <label> ... | <a>><b> ...        label = i<dec> | s<hex>
      -> <label> ...  | STUCK
-   ORD <label> ... | <label> ... | ...
+   ORD <label> ... | <label> ... | ...          x: {..} & {..} (explicit unification of literals)
+     -> <label> ...  | STUCK
+   ORDX <shape> | <label> ... | <label> ...     refs: s0: {..} s1: {..} x: s0 & s1   (merge_orders)
+                                                implicit / embed / refs-implicit      (implicit_orders)
      -> <label> ...  | STUCK
 *)
 open C02s_model
@@ -82,6 +85,12 @@ let handle line =
            | [a; b] -> (label_of_tok a, label_of_tok b)
            | _ -> failwith ("bad edge " ^ w)) (words es) in
        show_topo (c02s_topo nodes edges)
+     | _ -> "BADCASE")
+  | "ORDX" :: shape :: _ ->
+    (match String.split_on_char '|' line with
+     | _ :: parts ->
+       let os = List.map (fun p -> List.map label_of_tok (words p)) parts in
+       show_topo (if shape = "refs" then c02s_merge os else c02s_implicit os)
      | _ -> "BADCASE")
   | "ORD" :: _ ->
     let parts = String.split_on_char '|' (String.sub line 3 (String.length line - 3)) in
